@@ -284,7 +284,7 @@ PushRes(m, v) ==
 (* LazyEagerly: map / filter / scan results are lazy in the implementation, the model evaluates
    them at once; that is unobservable only for PURE bodies -- anything else is outside the model *)
 ImpureElems == {"print", "printkeep", "printnonl", "input", "regget", "regset", "garrpush", "garrpop",
-                "garrcopy", "call", "stacklen", "wrapstack", "revstack"}
+                "garrcopy", "call", "stacklen", "wrapstack", "revstack", "over"}
 RECURSIVE PureNodes(_)
 RECURSIVE PureEach(_)
 PureEach(bs) == IF bs = <<>> THEN TRUE ELSE (PureNodes(Head(bs)) /\ PureEach(Tail(bs)))
@@ -338,6 +338,9 @@ Elem(m0, name) ==      \* m0: the element item already removed from ctl
       [] name = "text" -> LET p == Pop1(m0)
                           IN IF ~IsL(p[1]) THEN Undef(m0, "extract-of-scalar")
                              ELSE Push(PushRes(p[2], Monad("trem", p[1])), Monad("tail", p[1]))
+      \* over: the entry under the top once more; with fewer than two entries it READS an input (implicitly)
+      [] name = "over" -> IF Len(Stk(m0)) > 1 THEN Push(m0, Stk(m0)[Len(Stk(m0)) - 1])
+                          ELSE LET r == ImplicitInput(m0) IN Push(r[2], r[1])
       [] name = "dup" -> LET p == Pop1(m0) IN Push(Push(p[2], p[1]), p[1])
       [] name = "trip" -> LET p == Pop1(m0) IN Push(Push(Push(p[2], p[1]), p[1]), p[1])
       [] name = "pop" -> Pop1(m0)[2]
